@@ -4,11 +4,12 @@ set -u
 NAME="$1"; shift
 P=/verif/seeded/$NAME/patch.diff
 git -C /repo status --porcelain | grep -q . && { echo "/repo not clean"; exit 2; }
-git -C /repo apply "$P" || { echo "patch does not apply"; exit 2; }
+git -C /repo apply --check "$P" 2>/dev/null || { echo "--- $NAME: patch does not apply to the current tree"; exit 2; }
+git -C /repo apply "$P"
 for c in "$@"; do
   out=$(/verif/run.sh "$c" "${TIER:-quick}" 2>&1); code=$?
   echo "--- $NAME vs $c: exit=$code"
-  echo "$out" | grep -E "^(VIOLATION|KNOWN-FINDING|MACHINERY|  violation)" | head -${LINES_MAX:-12}
+  echo "$out" | grep -E "^(VIOLATION|MACHINERY|  violation)" | head -${LINES_MAX:-12}
 done
 git -C /repo checkout -- .
 git -C /repo status --porcelain | grep -q . && echo "WARNING: /repo not clean after revert"
